@@ -35,6 +35,7 @@ var errCustomPlain = errors.New("vf-custom-plain-error-77c1")
 //	{% xbfail %}..{% endxbfail %}         Errorf from a block
 //	{% xbplain %}..{% endxbplain %}       InnerString, then a plain error
 func RegisterCustom(e *liquid.Engine) {
+	e.RegisterTag("z", func(render.Context) (string, error) { return "Z", nil })
 	e.RegisterTag("xecho", func(c render.Context) (string, error) { return c.ExpandTagArg() })
 	e.RegisterTag("xeval", func(c render.Context) (string, error) {
 		v, err := c.EvaluateString(c.TagArgs())
